@@ -259,13 +259,19 @@ def seqVal (elemIsByte : Bool) (vs : List Val) : Val :=
     | none => .vec vs
   else .vec vs
 
-/-- what a Rust element type reads from a primitive deserializer (`u8.into_deserializer()` …): only the primitive
-itself accepts it; a newtype struct does not (its visitor has no `visit_u8`) -/
+/-- how far element types are resolved through names and newtype wrappers (`none` / `false` beyond) -/
+def resolveDepth (renv : REnv) : Nat := renv.length + 32
+
+/-- what a Rust element type reads from the element deserializer of the bulk reader (`PrimitiveElement` around
+`u8.into_deserializer()` …): the primitive itself accepts it, and a newtype struct sees through to its field
+(before the fix bed45e4 it did not: serde's value deserializers answer `deserialize_newtype_struct` with `visit_u8`,
+which a derived newtype visitor lacks — `Vec<Id>` with `struct Id(u64)` did not decode) -/
 def acceptsPrimitive (renv : REnv) : Nat → RTy → Prim → Option Bool
   | 0, _, _ => none
   | k + 1, t, p =>
     match t with
     | .prim q => some (decide (q = p))
+    | .newtype t' => acceptsPrimitive renv k t' p
     | .ref x => (match renv.find x with | some t' => acceptsPrimitive renv k t' p | none => none)
     | _ => some false
 
@@ -301,7 +307,7 @@ def bulkElems (renv : REnv) (vis : SeqVisitor) (t : RTy) (fl : Flags) (p : Prim)
   (addCost s2 (n * (3 + size))).bind fun _ s3 =>
     if n * size > s3.input.length then .err .eof
     else
-      match acceptsPrimitive renv (renv.length + 1) t p with
+      match acceptsPrimitive renv (resolveDepth renv) t p with
       | some true => runSeq vis (bulkElem p) n fl s3
       | some false =>
         -- the element visitor rejects the primitive (an error at the first element it is offered)
@@ -513,6 +519,7 @@ def isByte (renv : REnv) : Nat → RTy → Bool
   | k + 1, t =>
     match t with
     | .prim .nat8 => true
+    | .newtype t' => isByte renv k t'
     | .ref x => (match renv.find x with | some t' => isByte renv k t' | none => false)
     | _ => false
 
@@ -526,7 +533,7 @@ def deNBody (mk : String → NR) (env : Env) (tableLen : Nat) (renv : REnv) (fue
         (addCost s 1).bind fun _ s1 =>
           match e', w' with
           | .vec ee, .vec ww =>
-            (nVecCase env renv fuel rec vis el fl ww ee s1).map fun (vs, f) => (seqVal (isByte renv (renv.length + 1) el) vs, f)
+            (nVecCase env renv fuel rec vis el fl ww ee s1).map fun (vs, f) => (seqVal (isByte renv (resolveDepth renv) el) vs, f)
           | .record _, .record _ => mk "out of step: sequence visitor at a record"
           | _, _ => subErr s1
   match t with
